@@ -19,6 +19,7 @@
 //	path <tree> <draws|-> <hexpath>[,<hexpath>...]    real mp.GetMapValue on a variable tree (grammar: internal/a15/tree.go),
 //	                                                  the listed paths one after the other on ONE real NextIterator
 //	                                                  (iter.Rand answers the listed draws); one result per path
+//	csv <delim> <fields> <i|n> <filed> <lines> <file>  real file/csv variable source on a generated file (grammar: csvsrc.go)
 //	tmpl <t|h> <trees> <calls>                        real TextTemplater / HTMLTemplater: a history of Apply calls on ONE
 //	                                                  templater (grammar: tmpl.go); one result per call
 package main
@@ -698,6 +699,8 @@ func runCase(c string) string {
 		return runPath(f)
 	case "tmpl":
 		return runTmpl(f)
+	case "csv":
+		return runCsv(f)
 	case "parse":
 		name, cnt, sl, err := sconfig.ParseShootName(string(vh.UnHex(f[1])))
 		if err != nil {
